@@ -422,3 +422,6 @@ let () =
    bytes the names consist of: every file compared with itself is clean both ways *)
 let () = register "clinewline" (fun _ -> obs "clinewline local=ok remote=ok")
 
+
+(* cliabort: a client that went away; nothing to predict but that the run goes on *)
+let () = register "cliabort" (fun _ -> obs "cliabort done")
